@@ -26,13 +26,13 @@ esac
 
 
 class GitRepo:
-    def __init__(self, tmp, name="gitref"):
+    def __init__(self, tmp, name="gitref", fmt="sha1"):
         self.dir = os.path.join(tmp, name)
         self.aux = os.path.join(tmp, name + "-aux")
         os.makedirs(self.aux, exist_ok=True)
         self.env = {"PATH": os.environ.get("PATH", "/usr/bin:/bin"), "HOME": self.aux, "GIT_CONFIG_NOSYSTEM": "1",
                     "GIT_NO_REPLACE_OBJECTS": "1", "LC_ALL": "C", "TZ": "UTC", "GIT_CONFIG_GLOBAL": "/dev/null"}
-        subprocess.run([GIT, "init", "-q", "--object-format=sha1", self.dir], env=self.env, check=True,
+        subprocess.run([GIT, "init", "-q", "--object-format=" + fmt, self.dir], env=self.env, check=True,
                        stdout=subprocess.DEVNULL, stderr=subprocess.DEVNULL)
         self.dump = os.path.join(self.aux, "dump.sh")
         with open(self.dump, "w") as f:
